@@ -46,6 +46,10 @@ THEOREMS = [
     "Lineno.inherited_field_line_correct_partial", "Lineno.report_on_inheriting_object_wrong",
     "Lineno.attr_field_only_correct", "Lineno.attr_own_only_correct", "Lineno.attr_both_partial",
     "Lineno.attr_both_counterexample",
+    # hunter round
+    "Lineno.reportedLineS_eq_partial", "Lineno.reportedLineS_epytext", "Lineno.reportedLineS_counterexample",
+    "Lineno.version_arg_xref_offset", "Lineno.version_arg_xref_partial", "Lineno.version_arg_xref_counterexample",
+    "Lineno.section_title_xref_offset", "Lineno.toc_xref_offset", "Lineno.section_title_counterexample",
     "Lineno.doc_assignment_line_correct", "Lineno.doc_assignment_field_line_correct_partial",
     "Lineno.doc_assignment_keeps_old_base_old", "Lineno.doc_assignment_old_counterexample",
     # google / numpy
@@ -74,6 +78,18 @@ PARTIAL = {
     "Lineno.attr_both_partial":
         "an attribute documented by a class field and by its own docstring: right only if both docstrings start on the same line, "
         "i.e. never (attr_both_counterexample; open finding line:attr-field-and-inline-docstring)",
+    "Lineno.reportedLineS_eq_partial":
+        "every reported_line_* theorem speaks about reportedLine; it equals what pydoctor prints (reportedLineS, docutils' splitlines() "
+        "line structure) only when the cleaned docstring has none of U+001C-1E, U+0085, U+2028, U+2029 (noExtraBreaksClean); epytext needs "
+        "no hypothesis (reportedLineS_epytext); witness reportedLineS_counterexample (open finding line:rst-unicode-line-boundary)",
+    "Lineno.version_arg_xref_partial":
+        "a reference in the argument of versionadded / versionchanged / deprecated is on the directive's line only when the directive is "
+        "the last line of the docstring; otherwise the line after the directive's block (version_arg_xref_offset, "
+        "version_arg_xref_counterexample; open finding line:rst-version-directive-arg-xref:after-block)",
+    "Lineno.section_title_xref_offset":
+        "states the defect: a reference in a section title is located on the underline (open finding "
+        "line:rst-section-title-xref:underline) and, for modules and classes, a second time with offset 0 (toc_xref_offset; open finding "
+        "dup:rst-section-title-xref:toc-first-line)",
     "Lineno.type_warning_one_low":
         "states the defect: --process-types warnings of a type field are one line low for every field "
         "(open finding line:processtypes-type-warning:+1)",
@@ -932,6 +948,23 @@ def corpus_modules() -> List[Dict[str, Any]]:
         {"lines": ["More."], "constructs": [], "kind": "para"},
         {"lines": [":Parameters:", "  a : `zt1`", "    fine", "  zp2 : int", "    not a parameter"],
          "constructs": [("T", 0, "zt1", 1), ("D", 0, "zp2", 3)], "kind": "consolidated"}]})])
+    # hunter round: version directive argument, section titles (module: table of contents too), splitlines() boundaries
+    mod("version-directive-arg", "r", [("function", below0, 0, {"layout": dict(plain), "blocks": [
+        {"lines": ["Summary."], "constructs": [], "kind": "para"},
+        {"lines": [".. deprecated:: 1.3 use `zq1` instead", "", "   More explanation", "   on two lines."], "constructs": [("V", 3, "zq1")], "kind": "vdir"},
+        {"lines": ["End."], "constructs": [], "kind": "para"}]})])
+    mod("section-title", "r", [("module", below0, 0, {"layout": dict(plain), "blocks": [
+        {"lines": ["Module summary."], "constructs": [], "kind": "para"},
+        {"lines": ["Section about `zq1`", "===================="], "constructs": [("S", 0, "zq1")], "kind": "title"},
+        {"lines": ["More text."], "constructs": [], "kind": "para"}]}),
+        ("function", below0, 0, {"layout": dict(plain), "blocks": [
+        {"lines": ["Summary."], "constructs": [], "kind": "para"},
+        {"lines": ["Details of `zq2`", "================"], "constructs": [("S", 0, "zq2")], "kind": "title"},
+        {"lines": ["Body."], "constructs": [], "kind": "para"}]})])
+    mod("splitlines-boundary", "r", [("function", below0, 0, {"layout": dict(plain), "blocks": [
+        {"lines": ["Records\u2028fields\x1echars."], "constructs": [], "kind": "uline"},
+        {"lines": ["Second paragraph `zq1`."], "constructs": [("X", 0, "zq1")], "kind": "para"},
+        {"lines": [":zf2: unknown field"], "constructs": [("U", 0, "zf2")], "kind": "field"}]})])
     # finding 2 (google / numpy line past the end)
     for fmt, lines in (("n", ["Parameters", "----------", "zp1: int", "zp2: int", "zp3: int", "zp4: int"]),
                        ("g", ["Args:", "    zp1 (int): x", "    zp2 (int): x", "    zp3 (int): x", "    zp4 (int): x"])):
@@ -1051,7 +1084,7 @@ def oracle_er(ctx: Ctx, inp, fmt: str, doc, exp, uniq, span) -> None:
                          {**inp, "object": doc["name"], "reported": ln, "expected": first, "problem": [kind, name]},
                          f"{where}: '{name}' in the section title on line {first} is reported on line {ln} (the title's underline)")
                 continue
-            if pc == "V" and first < ln <= span[1] + 1:
+            if pc == "V" and first < ln <= span[1] + 1 + shift:
                 ctx.fail("line:rst-version-directive-arg-xref:after-block",
                          {**inp, "object": doc["name"], "reported": ln, "expected": first, "problem": [kind, name]},
                          f"{where}: '{name}' in the argument of the version directive on line {first} is reported on line {ln}, after the directive's block")
